@@ -24,7 +24,7 @@ RULE = (
     "interior extrema, axis-degenerate, near-linear cubics whose leading coefficient straddles the library's 1e-8 "
     "threshold), arcs of every rotation class and extents from 1e-3 to beyond a full turn; (paths/shapes) generated "
     "paths, subpaths and basic shapes under the matrix classes with transformed in {True, False} and with_stroke in "
-    "{True, False}; (containers) groups, nested groups and use instances of them. Non-trivial = a curved segment with "
+    "{True, False}; (containers) groups, nested groups, use instances of shapes and groups, chains of uses (use of a use), the use inside a group; leaves collected by the harness itself. Non-trivial = a curved segment with "
     "an interior extremum, a container with >= 2 children, or a painted stroke under a non-unit determinant; "
     "distinct by the case."
 )
@@ -36,7 +36,7 @@ ASSUMPTIONS = [
     "other; tightness is 1e-7 * scale, so a sub-threshold cubic term at ordinary scale cannot move an extremum by more",
 ]
 TOLERANCES = {"containment": "1e-9 * S", "tightness": "1e-7 * S", "arc": "+ 1e-15 * (ratio*cond)^2 * S"}
-MANDATORY_LABELS = {"quick": ["seg:Q", "seg:C", "seg:A", "seg:L", "extrema:0", "extrema:1", "extrema:2", "cubic:near-linear", "arc:beyond-full-turn", "arc:tiny", "path", "subpath", "stroke:transformed", "stroke:untransformed", "shape:rrect", "shape:circle", "group", "group:nested", "group:empty", "use"]}
+MANDATORY_LABELS = {"quick": ["seg:Q", "seg:C", "seg:A", "seg:L", "extrema:0", "extrema:1", "extrema:2", "cubic:near-linear", "arc:beyond-full-turn", "arc:tiny", "path", "subpath", "stroke:transformed", "stroke:untransformed", "shape:rrect", "shape:circle", "group", "group:nested", "group:empty", "use", "use:chained"]}
 MANDATORY_LABELS["thorough"] = MANDATORY_LABELS["quick"]
 
 GOLD = (math.sqrt(5.0) - 1.0) / 2.0
@@ -237,7 +237,8 @@ def decode_group(d):
     kind = d.choice(["group", "group", "use"])
     if kind == "group":
         return {"kind": "group", "leaves": leaves(d.int(0, 3)), "nest": leaves(d.int(0, 2)) if d.bool() else None, "G": gen.matrix(d) if d.bool() else None}
-    return {"kind": "use", "shape": c02.shape_params(d), "x": gen.small_coord(d), "y": gen.small_coord(d), "T": d.choice(["", "rotate(30)", "scale(2,0.5)", "skewX(20)", "matrix(0,1,1,0,3,4)"]), "group": d.bool()}
+    return {"kind": "use", "shape": c02.shape_params(d), "x": gen.small_coord(d), "y": gen.small_coord(d), "T": d.choice(["", "rotate(30)", "scale(2,0.5)", "skewX(20)", "matrix(0,1,1,0,3,4)"]), "group": d.bool(),
+            "chain": d.below(3), "in_group": d.bool()}
 
 
 def parts(tier):
@@ -464,9 +465,21 @@ def round_known(leaf):
     return False
 
 
+def leaves_of(container):
+    """the shapes below a container, by the harness's own recursion over the child lists (not the library's select())"""
+    se = lib.L()
+    out = []
+    for child in container:
+        if isinstance(child, se.Shape):
+            out.append(child)
+        elif isinstance(child, (se.Group, se.Use)):
+            out.extend(leaves_of(child))
+    return out
+
+
 def check_container(o, container, what):
     se = lib.L()
-    leaves = [e for e in container.select() if isinstance(e, se.Shape)]
+    leaves = leaves_of(container)
     has_known = any(round_known(l) for l in leaves)
     for transformed in (True, False):
         for with_stroke in (False, True):
@@ -546,13 +559,26 @@ def check_use(case):
     else:
         ref = "#a"
     t = (' transform="%s"' % case["T"]) if case["T"] else ""
-    doc = '<svg xmlns="http://www.w3.org/2000/svg" xmlns:xlink="http://www.w3.org/1999/xlink" width="500" height="500"><defs>%s</defs><use id="u" xlink:href="%s" x="%r" y="%r"%s/></svg>' % (el, ref, case["x"], case["y"], t)
+    # a chain of uses: the visible use refers to a use (in defs) that refers to ... the element
+    chain = case.get("chain", 0)
+    for i in range(chain):
+        el += '<use id="link%d" xlink:href="%s" x="%d" y="2"/>' % (i, ref, i + 1)
+        ref = "#link%d" % i
+    if chain:
+        o.label("use:chained")
+    top = '<use id="u" xlink:href="%s" x="%r" y="%r"%s/>' % (ref, case["x"], case["y"], t)
+    if case.get("in_group"):
+        top = '<g id="holder" transform="translate(3,4)">%s</g>' % top
+    doc = '<svg xmlns="http://www.w3.org/2000/svg" xmlns:xlink="http://www.w3.org/1999/xlink" width="500" height="500"><defs>%s</defs>%s</svg>' % (el, top)
     svg = se.SVG.parse(io.StringIO(doc), reify=False)
-    uses = [e for e in svg.elements() if isinstance(e, se.Use)]
+    uses = [e for e in svg.elements() if isinstance(e, se.Use) and e.id == "u"]
     if len(uses) != 1:
-        return o.violation("use:missing", "expected one Use in %r, got %d" % (doc, len(uses)))
+        return o.violation("use:missing", "expected one Use with id u in %r, got %d" % (doc, len(uses)))
+    if not leaves_of(uses[0]):
+        return o.violation("use:empty", "the use instance in %r has no shape below it" % doc)
     bad, _ = check_container(o, uses[0], "use")
     if bad is not None:
+        bad.detail = "%s in %s" % (bad.detail, doc) if hasattr(bad, "detail") and bad.detail else doc
         return bad
     bad, _ = check_container(o, svg, "svg")
     if bad is not None:
